@@ -386,7 +386,9 @@ func (x *Exec) applyContract(st *State, fr *Frame, in ssa.Instruction, fn *ssa.F
 		}
 	}
 	x.seqCtr++
-	st.trace = append(st.trace, &CallEvent{Callee: traceName(fn), Args: args, Res: res, Seq: x.seqCtr})
+	cev := &CallEvent{Callee: traceName(fn), Args: args, Res: res, Seq: x.seqCtr}
+	st.trace = append(st.trace, cev)
+	cev.After = st.clone()
 	if c.Trusted {
 		x.trusted["contract of "+funcFull(fn)+" is assumed (trusted)"] = true
 	}
